@@ -67,6 +67,11 @@ CHECKS = {
     note='Trusted: z3, transliterator, zgesv contract stub (A x = b, info=0). One inductive step from an arbitrary state stands for any layer stack; the integrator preserving solution-hood inside a layer is outside.',
     technique='Cython source transliteration + symbolic execution (formal-indeterminate mode) + z3 identities; extent-checked stack arrays',
     design='2/C02'),
+ 'C03': dict(
+    text='Bounded SMT validity checking: the unit scaling of nondimensional.pyx is shown to be a symmetry of every link (eight ODE right-hand sides, boundary vectors sliced from cf_radial_solver, interface maps, Love extraction), redim(nondim(x))=x, an exactly rescaled planet has identical non-dimensional inputs, and reciprocity: dB/dr=0 for the bilinear form on every ODE class and B(R)=0 with the code\'s tidal/loading boundary vectors gives k_load = k_tidal - h_tidal.',
+    note='Trusted: z3, transliterator, formal-indeterminate mode (justified by a syntactic field-operations-only test of each kernel). Integrator convergence, B=0 at the centre and B across static-liquid interfaces are outside.',
+    technique='Cython source transliteration + symbolic execution (formal indeterminates) + z3 rational-function identities; inductive invariant for reciprocity',
+    design='2/C03'),
 }
 NOT_YET = {}
 ALL = ['C%02d' % i for i in range(1, 21)]
